@@ -68,7 +68,11 @@ def run(ctx: Ctx) -> int:
     import numpy as np
     for text, dets, obs in [("X 0 2\nM 0 1 2\nDETECTOR rec[-3]\nDETECTOR rec[-2]\nDETECTOR rec[-1]", [1, 0, 1], []),
                             ("X 1\nM 0 1\nOBSERVABLE_INCLUDE(0) rec[-1]\nOBSERVABLE_INCLUDE(2) rec[-2]", [], [1, 0, 0]),
-                            ("X 0\nM 0 1\nDETECTOR rec[-1]\nDETECTOR rec[-2]\nOBSERVABLE_INCLUDE(1) rec[-2]", [0, 1], [0, 1])]:
+                            ("X 0\nM 0 1\nDETECTOR rec[-1]\nDETECTOR rec[-2]\nOBSERVABLE_INCLUDE(1) rec[-2]", [0, 1], [0, 1]),
+                            ("X 0 2\nM 0 1 2\nDETECTOR rec[-3]\nDETECTOR rec[-2]\nDETECTOR rec[-1]\nOBSERVABLE_INCLUDE(0) rec[-1]\nOBSERVABLE_INCLUDE(1) rec[-2]\nOBSERVABLE_INCLUDE(2) rec[-3]",
+                             [1, 0, 1], [1, 0, 1]),
+                            ("X 0 3 4 8\nM 0 1 2 3 4 5 6 7 8\n" + "\n".join(f"DETECTOR rec[-{9 - k}]" for k in range(9)) + "\nOBSERVABLE_INCLUDE(0) rec[-1]\nOBSERVABLE_INCLUDE(1) rec[-2]",
+                             [1, 0, 0, 1, 1, 0, 0, 0, 1], [1, 0])]:
         try:
             smp = tsim.Circuit(text).compile_detector_sampler(seed=3)
             plain = np.asarray(smp.sample(3)).astype(int)
@@ -80,6 +84,22 @@ def run(ctx: Ctx) -> int:
             ctx.violation("detector-columns-raises:" + text.replace("\n", ";")[:50], f"detector sampler raised {e!r}", {"text": text, "det": True})
             continue
         ctx.count(("cols", text), bucket="detector-observable-columns")
+        # the same layouts bit-packed: unpacking the bytes (little-endian bits) gives the unpacked row, padded with zeros
+        for flags, ref_rows in (({}, plain), ({"append_observables": True}, app), ({"prepend_observables": True}, pre)):
+            try:
+                packed = np.asarray(smp.sample(3, bit_packed=True, **flags))
+            except Exception as e:
+                ctx.violation(f"detector-columns-bit-packed-raises:" + text.replace("\n", ";")[:40], f"bit_packed sample raised {e!r}", {"text": text, "det": True, "flag": str(flags)})
+                continue
+            w = ref_rows.shape[1]
+            un = np.unpackbits(packed.astype(np.uint8), axis=1, bitorder="little") if packed.size else np.zeros((3, 0), dtype=np.uint8)
+            ok = packed.shape == (3, (w + 7) // 8) and np.array_equal(un[:, :w].astype(int), ref_rows) and not un[:, w:].any()
+            ctx.count(("cols-packed", text, str(flags)), bucket="detector-observable-columns-bit-packed")
+            if not ok:
+                ctx.violation(f"detector-columns-bit-packed-{'-'.join(flags) or 'plain'}:" + text.replace("\n", ";")[:40],
+                              f"bit_packed {flags}: bytes {packed.tolist()} do not unpack to the rows {ref_rows.tolist()} ({w} columns)",
+                              {"text": text, "det": True, "flag": "bit_packed " + str(flags)})
+                break
         want = {"plain": [dets] * 3, "append": [dets + obs] * 3, "prepend": [obs + dets] * 3, "separate-detectors": [dets] * 3, "separate-observables": [obs] * 3}
         got = {"plain": plain.tolist(), "append": app.tolist(), "prepend": pre.tolist(), "separate-detectors": sd.tolist(), "separate-observables": so.tolist()}
         for k_ in want:
